@@ -62,12 +62,15 @@ type Parser struct {
 // split is splitFunc, plus keeping track of whether the first event starts at the very beginning
 // of the input: only there a BOM may be removed.
 func (r *Parser) split(data []byte, atEOF bool) (advance int, token []byte, err error) {
+	skip := 0
 	if r.afterCR && len(data) > 0 {
 		r.afterCR = false
 		if data[0] == '\n' {
-			// The CR and the LF of a CRLF were read separately. Consume the LF right away
-			// instead of counting it as a blank line in front of the next event.
-			return 1, nil, nil
+			// The CR and the LF of a CRLF were read separately: the LF is not a blank line in front
+			// of the next event. It is consumed together with whatever follows it – not on its own,
+			// as the scanner stops for good when it gets no token after the reader has reported EOF.
+			skip = 1
+			data = data[1:]
 		}
 	}
 	advance, token, err = splitFunc(data, atEOF)
@@ -82,7 +85,7 @@ func (r *Parser) split(data []byte, atEOF bool) (advance int, token []byte, err 
 			}
 		}
 	}
-	return advance, token, err
+	return advance + skip, token, err
 }
 
 // Next parses a single field from the reader. It returns false when there are no more fields to parse.
